@@ -31,6 +31,12 @@ Resolve(cwd, raw) ==
 \* arguments the harness marked as syntactically canonical absolute paths come with their components
 ResolveA(st, c) == IF c.aok = "t" THEN [o |-> "ok", p |-> c.ac] ELSE Resolve(st.cwd, c.a)
 ResolveB(st, c) == IF c.bok = "t" THEN [o |-> "ok", p |-> c.bc] ELSE Resolve(st.cwd, c.b)
+\* lexical join of relative segments onto an absolute directory, cleaned: ".." pops (and is dropped at the root)
+RECURSIVE JoinClean(_, _)
+JoinClean(cur, rest) == IF rest = <<>> THEN cur
+                        ELSE IF rest[1] = PL!DotDot THEN JoinClean(IF cur = <<>> THEN cur ELSE Front(cur), Tail(rest))
+                        ELSE IF rest[1] = PL!Dot THEN JoinClean(cur, Tail(rest))
+                        ELSE JoinClean(Append(cur, Str(rest[1])), Tail(rest))
 Ambiguous(raw) == raw # <<>> /\ PL!AmbiguousExpand(EnvF, raw)
 
 HasFlag(c, x) == \E i \in 1..Len(c.f) : c.f[i] = x
@@ -85,9 +91,13 @@ Expected(st, c) ==
   IF op \in TwoPath THEN
      (IF op = "symlink" THEN
          \* target: relative spellings are taken relative to the directory of the link
-         LET rb == IF c.b # <<>> /\ ~PL!IsAbs(c.b) THEN Resolve(Parent(p), c.b) ELSE ResolveB(st, c) IN
+         \* (a spelling with ~, $ or a scheme is only settled for absolute targets: otherwise not judged)
          IF p = Root THEN R(st, RErrAny)
-         ELSE IF rb.o # "ok" THEN ArgErr(st, rb.o) ELSE Op_symlink(st, Own, p, rb.p)
+         ELSE IF c.b # <<>> /\ ~PL!IsAbs(c.b) THEN
+              (IF \E i \in 1..Len(c.b) : c.b[i] \in {"~", "$", ":"} THEN [st |-> st, res |-> RAny, alt |-> {}, partial |-> TRUE, paired |-> FALSE]
+               ELSE Op_symlink(st, Own, p, JoinClean(Parent(p), PL!Segs(c.b))))
+         ELSE LET rb == ResolveB(st, c) IN
+              IF rb.o # "ok" THEN ArgErr(st, rb.o) ELSE Op_symlink(st, Own, p, rb.p)
       ELSE LET rb == ResolveB(st, c) IN
          IF rb.o # "ok" THEN ArgErr(st, rb.o)
          ELSE IF op = "move_p" THEN Op_move_p(st, p, rb.p)
@@ -119,6 +129,7 @@ Expected(st, c) ==
 PathRes == {"mkfile", "mkfile_m", "mkdir_p", "mkdir_m", "symlink"}
 EntryOK(st, p, v) == LET fs == st.fs  n == fs[p]  e == v.e IN
    /\ e.path = PV(p) /\ e.link = TF(n.k = "link") /\ e.mode = n.mode /\ e.following = "f" /\ e.same_bufs = "t"
+   /\ e.wrap = "t" /\ v.f1.wrap = "t" /\ v.f2.wrap = "t"          \* C13: every VfsEntry accessor = the wrapped entry's accessor
    /\ e.exec = TF(IsExecMode(n.mode)) /\ e.ro = TF(IsReadonlyMode(n.mode))
    /\ (LinkKindSettled(fs, p) => /\ e.dir = TF(n.k = "dir" \/ n.tk = "dir") /\ e.file = TF(n.k = "file" \/ n.tk = "file")
                                  /\ e.ldir = TF(n.k = "link" /\ n.tk = "dir") /\ e.lfile = TF(n.k = "link" /\ n.tk = "file"))
@@ -180,10 +191,20 @@ TallyGroup(tally, r, g) == LET v == RepViolation(r.pre) IN
    IF v # "-" THEN Upd(tally, <<"skip", "pre-state-illformed", v>>, g * 1000)
    ELSE TallySteps(tally, AbsOf(r.pre), r.steps, 1, g)
 
+\* chain records (histories): [k |-> "h", init |-> REP, steps |-> ...]: the pre-state of a step is the post-state of the previous one
+RECURSIVE TallyChain(_, _, _, _, _)
+TallyChain(tally, rep, steps, i, g) == IF i > Len(steps) THEN tally ELSE
+   LET s == steps[i]
+       v == RepViolation(rep)
+       t1 == IF v # "-" THEN Upd(tally, <<"skip", "pre-state-illformed", v>>, g * 1000 + i)
+             ELSE UpdAll(tally, JudgeStep(AbsOf(rep), s), g * 1000 + i)
+   IN TallyChain(t1, IF s.same = "t" THEN rep ELSE s.post, steps, i + 1, g)
+TallyRec(tally, r, g) == IF r.k = "h" THEN TallyChain(tally, r.init, r.steps, 1, g) ELSE TallyGroup(tally, r, g)
+
 VARIABLES l
 Init == l = 1 /\ TLCSet(1, <<>>) /\ TLCSet(2, 0)
 Next == /\ l <= Len(Recs)
-        /\ TLCSet(1, TallyGroup(TLCGet(1), Recs[l], l))
+        /\ TLCSet(1, TallyRec(TLCGet(1), Recs[l], l))
         /\ TLCSet(2, TLCGet(2) + Len(Recs[l].steps))
         /\ l' = l + 1
 Done == (l = Len(Recs) + 1) => JsonSerialize(IOEnv.OUT, [checked |-> TLCGet(2), groups |-> Len(Recs), classes |-> TLCGet(1)])
